@@ -328,6 +328,16 @@ FN_PROPS["C03u"] = {
             "splitter and compared with Cup.tla's Decorate"}
 
 
+FN_PROPS["C15"] = {
+    "title": "requests have exactly the Omaha v3 wire shape", "module": "Wire", "cmd": "wire",
+    "cfg": {"quick": ["wire3.cfg"], "thorough": ["wire4.cfg"]}, "prefixes": ["WIRE"],
+    "nontrivial": lambda v: len(v.get("ops", [])) >= 2,
+    "rule": "every sequence of builder operations up to the length bound over {add update check, add ping, add event e1/e2} x "
+            "three app templates (two sharing an id but differing in cohort, fingerprint, user counting, extra fields) and "
+            "{session id, request id}, for all 8 parameter combinations, enumerated by TLC from Wire.tla; the expected "
+            "headers and JSON tree are printed by TLC's ToJson (the independent encoder); non-trivial = at least two operations"}
+
+
 def cup_flips(rng, tier):
     return [{"k": "flips", "i": rng.randint(0, 1 << 30), "_": "CUP"} for _ in range(4 if tier == "quick" else 50)]
 
